@@ -267,3 +267,24 @@ M2('c02-static-bare-prefix-before-normalisation', 'C02', 'R7', [
         self._prefix = prefix
 """},
     {'file': 'falcon/routing/static.py', 'old': "path == self._prefix[:-1]", 'new': "path == self._bare_prefix"}])
+
+# ---- wave 5
+M2('c02-meta-guard-moved-to-routed-branch', 'C02', 'R6', [
+    {'file': 'falcon/app.py', 'old': """            if req.method in self._META_METHODS:
+                raise HTTPBadRequest()
+
+""", 'new': ""},
+    {'file': 'falcon/asgi/app.py', 'old': """            if req.method in self._META_METHODS:
+                raise HTTPBadRequest()
+
+""", 'new': ""},
+    {'file': 'falcon/app.py', 'old': """                responder = self.__class__._default_responder_bad_request
+        else:
+            params = {}
+""", 'new': """                responder = self.__class__._default_responder_bad_request
+            else:
+                if method in self._META_METHODS and not req.is_websocket:
+                    responder = self.__class__._default_responder_bad_request
+        else:
+            params = {}
+"""}])
